@@ -145,28 +145,38 @@ struct JSONUtils {
                             ++offset;
 
                             if ((length - offset) > SizeT{3}) {
-                                SizeT32 code = Digit::HexStringToNumber<SizeT32>((content + offset), SizeT{4});
-                                offset += SizeT{4};
-                                offset2 = offset;
+                                // Exactly four hex digits: anything else (a quote, for one) is not part of the escape.
+                                SizeT   hex_end = SizeT(offset + SizeT{4});
+                                SizeT32 code    = Digit::HexStringToNumber<SizeT32>(content, offset, hex_end);
 
-                                if ((code & 0xFC00U) != 0xD800U) {
-                                    Unicode::ToUTF<Char_T>(code, stream);
-                                    continue;
-                                }
-
-                                // Surrogate
-                                if ((length - offset) > SizeT{5}) {
-                                    code = (code ^ 0xD800U) << 10U;
-                                    offset += SizeT{2};
-
-                                    code += Digit::HexStringToNumber<SizeT32>((content + offset), SizeT{4}) & 0x3FFU;
-                                    code += 0x10000U;
-
-                                    Unicode::ToUTF<Char_T>(code, stream);
-
-                                    offset += SizeT{4};
+                                if (offset == hex_end) {
                                     offset2 = offset;
-                                    continue;
+
+                                    if ((code & 0xFC00U) != 0xD800U) {
+                                        Unicode::ToUTF<Char_T>(code, stream);
+                                        continue;
+                                    }
+
+                                    // Surrogate: the second half is another "\uXXXX".
+                                    if (((length - offset) > SizeT{5}) && (content[offset] == JSONotation::BSlashChar) &&
+                                        ((content[offset + SizeT{1}] == JSONotation::U_Char) ||
+                                         (content[offset + SizeT{1}] == JSONotation::CU_Char))) {
+                                        offset += SizeT{2};
+                                        hex_end = SizeT(offset + SizeT{4});
+
+                                        const SizeT32 low = Digit::HexStringToNumber<SizeT32>(content, offset, hex_end);
+
+                                        if (offset == hex_end) {
+                                            code = (code ^ 0xD800U) << 10U;
+                                            code += (low & 0x3FFU);
+                                            code += 0x10000U;
+
+                                            Unicode::ToUTF<Char_T>(code, stream);
+
+                                            offset2 = offset;
+                                            continue;
+                                        }
+                                    }
                                 }
                             }
 
